@@ -224,7 +224,7 @@ enum Prop {
 fn judge(prop: Prop, w: &Work, cfg: &ExploreCfg, tr: &Transition, agg: &mut Agg) {
     let published = w.trace.published_at(cfg.end);
     // path = [choices during ShmReader::new, call 1, call 2, ...]: fewest calls first, then fewest stale reads
-    let devs = tr.path.last().map(|c| c.iter().filter(|x| **x > 0).count() as u32).unwrap_or(0) + (tr.path.len() as u32).saturating_sub(2) * 100;
+    let devs = tr.path.last().map(|c| c.iter().filter(|x| **x > 0 && **x != FULL_SPIN_MARK).count() as u32).unwrap_or(0) + (tr.path.len() as u32).saturating_sub(2) * 100;
     let m = mode_name(cfg.mode);
     let key = match (&tr.result, &tr.returned) {
         (CallResult::Ok, Some(r)) => match idx_of(&published, r) {
@@ -616,10 +616,7 @@ fn assumptions() -> Vec<String> {
 }
 
 pub fn run(ctx: &Ctx) -> i32 {
-    std::panic::set_hook(Box::new(|info| {
-        // sentinels are raised with resume_unwind and never reach the hook; anything else is a real panic
-        let _ = info;
-    }));
+    crate::common::report::quiet_panics();
     if let Some(p) = &ctx.replay {
         return replay_cmd(ctx, p);
     }
